@@ -118,7 +118,30 @@ def run(ctx):
             F = Facts(P, f, i.bb)
             idx = C.val(strip_int_casts(f, arr[0][1])) if arr else None
             ub = [x for x in F.upper_bound_sym(idx)] if idx else []
-            if idx and any(const_of(bv) == nel and strict for bv, strict, sg in ub) and re.match(r'^phi', idx):
+            # the element loop as a recurrence: the address advances by one element per iteration from element 0, nel iterations
+            from ..poly import PolyCtx as _PC11, Poly as _P11
+            from ..loops import loops_of as _lo11, innermost as _in11, affine_in_t as _aff11
+            whole = False
+            try:
+                pc11 = _PC11(P, f, C)
+                L11 = _in11(_lo11(P, f, pc11), i.bb)
+                if L11 is not None:
+                    pt = L11.ptr_at_iteration(*pc11.ptr(i.ops[1]))
+                    base0 = pc11.ptr(i.ops[1])
+                    ab = _aff11(pt[1]) if pt is not None else None
+                    hg = [g_ for g_ in L11.guards() if g_.block is L11.header]
+                    T11 = L11.trip(hg[0]) if len(hg) == 1 else None
+                    if ab is not None and T11 is not None and ab[1] == _P11.const(w // 8) and T11.const_value() == nel:
+                        # starts at element 0 of the member: the offset at t = 0 is the member's own offset (no loop-variant part left)
+                        whole = ab[0].is_const() or not any(a_.startswith('%') for a_ in ab[0].atoms())
+                    if not whole and arr and T11 is not None and T11.const_value() == nel:
+                        # member[i] addressed by a struct GEP: i is the loop counter 0, 1, ..., nel-1
+                        ivn = strip_int_casts(f, arr[0][1])
+                        rec = L11.ivs().get(ivn)
+                        whole = rec is not None and rec[0] is not None and rec[0].is_zero() and rec[1] == _P11.const(1) and hg[0].iv == ivn
+            except Exception:
+                whole = False
+            if whole or (idx and any(const_of(bv) == nel and strict for bv, strict, sg in ub) and re.match(r'^phi', idx)):
                 r.ok(f'member {name}: loop swaps all {nel} elements', func=f.name, loc=i.loc)
             else:
                 r.fail(f'member {name}: all {nel} elements', func=f.name, sig=f'{name} loop bound {ub}', loc=i.loc,
